@@ -128,7 +128,11 @@ func (its *WiredDatatype) checkOptionAndError(ppp *model.PushPullPack) errors.Or
 			return errors.ClientSync.New(its.L(), "error response without ErrorOperation")
 		}
 		modelOp := ppp.GetOperations()[0]
-		errOp, ok := operations.ModelToOperation(modelOp).(*operations.ErrorOperation)
+		decoded, dErr := operations.DecodeModelOperation(modelOp)
+		if dErr != nil {
+			return errors.ClientSync.New(its.L(), "error response without ErrorOperation: "+dErr.Error())
+		}
+		errOp, ok := decoded.(*operations.ErrorOperation)
 		if ok {
 			switch errOp.GetPushPullError().Code {
 			case errors.PushPullAbortionOfServer, errors.PushPullAbortionOfClient, errors.PushPullMissingOps:
@@ -155,7 +159,11 @@ func (its *WiredDatatype) checkOptionAndError(ppp *model.PushPullPack) errors.Or
 			return errors.DatatypeSubscribe.New(its.L(), "subscribe without SnapshotOp")
 		}
 		modelOp := ppp.GetOperations()[0]
-		_, ok := operations.ModelToOperation(modelOp).(*operations.SnapshotOperation)
+		decoded, dErr := operations.DecodeModelOperation(modelOp)
+		if dErr != nil {
+			return errors.DatatypeSubscribe.New(its.L(), "subscribe without SnapshotOp: "+dErr.Error())
+		}
+		_, ok := decoded.(*operations.SnapshotOperation)
 		if !ok {
 			return errors.DatatypeSubscribe.New(its.L(), "subscribe without SnapshotOp")
 		}
